@@ -590,6 +590,10 @@ func c39Extras() []c39ExtraArg {
 		srv("no-scheme", ICEServer{URLs: []string{"192.0.2.3"}}),
 		srv("invalid-first", ICEServer{URLs: []string{"turn:192.0.2.3"}}, ICEServer{URLs: []string{"stun:192.0.2.3"}}),
 		srv("invalid-second-url", ICEServer{URLs: []string{"stun:192.0.2.3", "turn:192.0.2.3"}}),
+		// an invalid URL behind a TURN URL with valid credentials (a validation that stops at the first TURN URL)
+		srv("invalid-url-after-turn", ICEServer{URLs: []string{"turn:192.0.2.3?transport=udp", "http://192.0.2.3"}, Username: "u", Credential: "p"}),
+		srv("invalid-url-after-stun-and-turns", ICEServer{URLs: []string{"stun:192.0.2.3", "turns:192.0.2.3:5349?transport=tcp", "192.0.2.3"}, Username: "u", Credential: "p"}),
+		srv("valid-turn-then-stun", ICEServer{URLs: []string{"turn:192.0.2.3?transport=udp", "stun:192.0.2.3"}, Username: "u", Credential: "p"}),
 		srv("valid-oauth", ICEServer{
 			URLs: []string{"turn:192.0.2.3"}, Username: "u", CredentialType: ICECredentialTypeOauth,
 			Credential: OAuthCredential{MACKey: "bWFj", AccessToken: "dG9r"},
